@@ -185,6 +185,49 @@ def run_type(item):
                 bad('not-elementwise', '%r at input %r' % (float(plain[1][j]), float(pts[j])),
                     '%r when sample %d of the array is NaN' % (float(withnan[1][j]), pos), fn_name)
                 break
+    # elementwise, second form: what a sample converts to must not depend on WHICH other samples share its array - every ordered pair
+    # and every prefix of the boundary points (an array whose maximum is exactly a piece boundary and whose other samples lie in
+    # the piece below is the shape a "whole array in one piece" shortcut gets wrong), compared with one-element conversions.
+    # The inverse break points are taken from the library only as INPUTS (guarded; the oracle is the one-element conversion).
+    ibreaks = []
+    try:
+        for pl in tc._inverse_polynomials:
+            for b_ in (pl.applicable_range.start, pl.applicable_range.end):
+                if b_ is not None:
+                    ibreaks += neighbours(float(b_), -math.inf, math.inf)
+    except Exception:
+        pass
+    fwd_in = np.array(sorted(set(bpts.tolist())))
+    vb = ref_forward(tab, bpts)
+    inv_in = np.array(sorted(set([float(x_) for x_ in vb if x_ == x_] + [x_ for x_ in ibreaks if float(np.nanmin(vb)) <= x_ <= float(np.nanmax(vb))])))
+    for fn_name, fn, pts in (('forward', tc.celsius_to_mv, fwd_in), ('inverse', tc.mv_to_celsius, inv_in)):
+        r1 = H.guarded(lambda: [float(np.asarray(fn(np.array([p_])), dtype=np.float64)[0]) for p_ in pts])
+        if r1[0] != 'ok':
+            bad('composition-raised', 'values', repr(r1[:3]), fn_name)
+            continue
+        single = np.array(r1[1])
+        arrays = [[i_, j_] for i_ in range(len(pts)) for j_ in range(len(pts)) if i_ != j_] + [list(range(k_)) for k_ in range(3, len(pts) + 1)] \
+            + [list(range(k_, len(pts))) for k_ in range(0, len(pts) - 2)]
+        stop = False
+        for idx in arrays:
+            x = pts[idx]
+            rr = H.guarded(lambda: np.asarray(fn(x.copy()), dtype=np.float64))
+            res['counters']['boundary_points'] += len(idx)
+            if rr[0] != 'ok' or len(rr[1]) != len(idx):
+                bad('composition-raised', 'values', repr(rr[:3]), fn_name)
+                break
+            e_ = single[idx]
+            both_nan = np.isnan(rr[1]) & np.isnan(e_)
+            dd = np.abs(rr[1] - e_)
+            dd[both_nan] = 0
+            wrong = ~(dd <= 1e-11 + 1e-12 * np.abs(e_))
+            if wrong.any():
+                j = int(np.nonzero(wrong)[0][0])
+                bad('not-elementwise', '%r at input %r (converted alone)' % (float(e_[j]), float(x[j])),
+                    '%r when converted in the array %r' % (float(rr[1][j]), [float(q_) for q_ in x[:6]]), fn_name)
+                stop = True
+            if stop:
+                break
     # inverse over the NIST inverse range
     ilo, ihi = INV_RANGE[letter]
     ig = ilo + (ihi - ilo) * (np.arange(npts) + phase) / npts
